@@ -259,11 +259,39 @@ def same_expr(node: ast.AST | None, *accepted_srcs: str) -> bool:
     "structural equality (ast.dump, so independent of layout/parentheses/quotes) with one of the accepted expressions"
     if node is None:
         return False
-    d = ast.dump(node)
+    d = ast.dump(canon(node))
     for src in accepted_srcs:
-        if ast.dump(ast.parse(src, mode="eval").body) == d:
+        if ast.dump(canon(ast.parse(src, mode="eval").body)) == d:
             return True
     return False
+
+
+def np_method(node: ast.AST | None, *names: str):
+    """(receiver, call) when `node` is the reduction / array method `recv.<name>(...)` (the canonical spelling) or the
+    function form `np.<name>(recv, ...)` that the canonicaliser left alone; else None"""
+    if not isinstance(node, ast.Call):
+        return None
+    d = dotted_of(node.func)
+    if d and d.split(".")[0] in ("np", "numpy") and len(d.split(".")) == 2 and d.split(".")[1] in names and node.args:
+        return node.args[0], node
+    if isinstance(node.func, ast.Attribute) and node.func.attr in names and not (d and d.split(".")[0] in ("np", "numpy", "math", "random") and len(d.split(".")) == 2):
+        return node.func.value, node
+    return None
+
+
+def dict_items(node: ast.AST | None) -> dict | None:
+    "{key: value node} of a dict display with constant keys or a `dict(k=v, ...)` call; None for anything else"
+    if isinstance(node, ast.Dict) and all(isinstance(k, ast.Constant) for k in node.keys):
+        return {k.value: v for k, v in zip(node.keys, node.values)}
+    if isinstance(node, ast.Call) and dotted_of(node.func) == "dict" and not node.args and all(k.arg for k in node.keywords):
+        return {k.arg: k.value for k in node.keywords}
+    return None
+
+
+def CT(src: str, strip: bool = False) -> str:
+    "canonical text of an expected expression (the index holds idiom-canonical trees: expected texts are canonicalised the same way)"
+    t = ast.unparse(canon(ast.parse(src, mode="eval").body))
+    return t.replace(" ", "") if strip else t
 
 
 def same_stmt(node: ast.AST | None, *accepted_srcs: str) -> bool:
